@@ -131,6 +131,10 @@ Fixpoint ins_uniq (a : N) (l : list N) : list N :=
   end.
 Definition sort_dedup (l : list N) : list N := fold_right ins_uniq [] l.
 
+(* a u32 stage id as a list position: never convert a huge id to unary *)
+Definition idx_of (id : N) (len : nat) : option nat :=
+  if id <? N.of_nat len then Some (N.to_nat id) else None.
+
 (* ---------- contract state ---------- *)
 
 Record wl := mkWl {
@@ -144,6 +148,12 @@ Record wl := mkWl {
   w_roots : list N;        (* Merkle only: MERKLE_ROOTS, one string id per entry *)
   w_admins : list N
 }.
+
+Definition stage_at (l : list stage) (id : N) : option (nat * stage) :=
+  match idx_of id (length l) with
+  | None => None
+  | Some st => match nth_error l st with Some s => Some (st, s) | None => None end
+  end.
 
 Definition is_admin (w : wl) (sender : N) : bool := existsb (N.eqb sender) (w_admins w).
 
@@ -270,12 +280,14 @@ Definition plain_entries (ms : list (N * N)) : list (N * N) :=
 Definition exec_add_members (w : wl) (sender id : N) (ms : list (N * N)) : result wl :=
   do _ <- guard (negb (kind_eqb (w_kind w) KMerkle));          (* no such message there *)
   do _ <- guard (is_admin w sender);
-  let st := N.to_nat id in
-  do _ <- guard (Nat.ltb st (length (w_stages w)));
-  let l := match w_kind w with KPlain => plain_entries ms | _ => ms end in
-  do x <- add_loop st l (w_limit w) None (w_mem w) 0 (w_num w);   (* add_members has no whale check *)
-  let '(m, added, num) := x in
-  Ok (set_members w m (cnt_set (w_cnt w) st (cnt_get (w_cnt w) st + added)) num).
+  match idx_of id (length (w_stages w)) with
+  | None => Err                                                  (* StageNotFound *)
+  | Some st =>
+      let l := match w_kind w with KPlain => plain_entries ms | _ => ms end in
+      do x <- add_loop st l (w_limit w) None (w_mem w) 0 (w_num w);   (* add_members has no whale check *)
+      let '(m, added, num) := x in
+      Ok (set_members w m (cnt_set (w_cnt w) st (cnt_get (w_cnt w) st + added)) num)
+  end.
 
 Fixpoint remove_loop (st : nat) (l : list N) (m : mem) (cnt num : N) : result (mem * N * N) :=
   match l with
@@ -289,10 +301,9 @@ Fixpoint remove_loop (st : nat) (l : list N) (m : mem) (cnt num : N) : result (m
 Definition exec_remove_members (w : wl) (now sender id : N) (ms : list N) : result wl :=
   do _ <- guard (negb (kind_eqb (w_kind w) KMerkle));
   do _ <- guard (is_admin w sender);
-  let st := N.to_nat id in
-  match nth_error (w_stages w) st with
+  match stage_at (w_stages w) id with
   | None => Err
-  | Some s =>
+  | Some (st, s) =>
       do _ <- guard (now <? s_start s);
       do x <- remove_loop st ms (w_mem w) (cnt_get (w_cnt w) st) (w_num w);
       let '(m, cnt, num) := x in
@@ -316,10 +327,9 @@ Definition exec_add_stage (w : wl) (now sender : N) (s : stage) (ms : list (N * 
 Definition exec_remove_stage (w : wl) (now sender id : N) : result wl :=
   do _ <- guard (negb (kind_eqb (w_kind w) KMerkle));
   do _ <- guard (is_admin w sender);
-  let st := N.to_nat id in
-  match nth_error (w_stages w) st with
+  match stage_at (w_stages w) id with
   | None => Err
-  | Some s =>
+  | Some (st, s) =>
       do _ <- guard (now <? s_start s);
       let hi := length (w_stages w) in
       let gone := N.of_nat (mem_count_range (w_mem w) st hi) in
@@ -351,10 +361,9 @@ Definition exec_update_stage (w : wl) (sender id : N) (name start end_ : option 
   (* the flex message has no per_address_limit field; cw_serde rejects unknown fields *)
   do _ <- guard (match w_kind w, pal with KFlex, Some _ => false | _, _ => true end);
   do _ <- guard (is_admin w sender);
-  let st := N.to_nat id in
-  match nth_error (w_stages w) st with
+  match stage_at (w_stages w) id with
   | None => Err                                                 (* config.stages[stage_id] panics *)
-  | Some old =>
+  | Some (st, old) =>
       let l' := replace_nth (w_stages w) st (updated_stage (w_kind w) old name start end_ price pal mcl) in
       do _ <- guard (validate_update (w_kind w) l');
       Ok (set_stages w l')
@@ -399,16 +408,17 @@ Definition q_stages (w : wl) : result (list stage_resp) :=
   end.
 
 Definition q_stage (w : wl) (id : N) : result stage_resp :=
-  match nth_error (w_stages w) (N.to_nat id) with
+  match stage_at (w_stages w) id with
   | None => Err
-  | Some s => do x <- stage_extra w (N.to_nat id); Ok (id, s, x)
+  | Some (st, s) => do x <- stage_extra w st; Ok (id, s, x)
   end.
 
 (* Members{stage_id, limit: 100} (no start_after); Merkle has no such query *)
 Definition q_members (w : wl) (id : N) : result (list (N * N)) :=
   match w_kind w with
   | KMerkle => Err
-  | _ => Ok (firstn 100 (mem_stage (w_mem w) (N.to_nat id)))
+  | _ => Ok (firstn 100 (map (fun e => (me_addr e, me_val e))
+                             (filter (fun e => N.of_nat (me_stage e) =? id) (w_mem w))))
   end.
 
 Definition q_active_stage (w : wl) (now : N) : option stage := fetch_active now (w_stages w).
